@@ -10,6 +10,8 @@
 #include "gen_lp.hpp"
 #include <mpfr.h>
 #include <sys/wait.h>
+#include <dirent.h>
+#include <signal.h>
 
 using namespace vf;
 using soplex::NameSet;
@@ -34,6 +36,13 @@ static std::string modeOf(const Case* c = nullptr)
    auto it = opts().x.find("mode");
    return it == opts().x.end() ? std::string("rt") : it->second;
 }
+static const std::vector<const char*>& scratchFiles()
+{
+   static std::vector<const char*> f = {"c12_rt.lp", "c12_rt.mps", "c12_lit_rat.lp", "c12_lit_rat.mps", "c12_lit_real.lp",
+                                        "c12_lit_real.mps", "c12_dual.lp", "c12_dual.mps"
+                                       };
+   return f;
+}
 static std::string scratchDir()
 {
    static std::string d;
@@ -41,10 +50,24 @@ static std::string scratchDir()
    if(opts().mode == "replay" && opts().dir == ".")
    {
       mkdir("/var/tmp/h-c12-replay", 0777);
+      // leftovers of replays that crashed (known findings include crashes): remove directories of dead processes
+      if(DIR* dh = opendir("/var/tmp/h-c12-replay"))
+      {
+         while(dirent* de = readdir(dh))
+         {
+            long pid = std::strtol(de->d_name, nullptr, 10);
+            if(pid <= 0 || kill((pid_t) pid, 0) == 0) continue;
+            std::string old = std::string("/var/tmp/h-c12-replay/") + de->d_name;
+            for(const char* f : scratchFiles()) unlink((old + "/" + f).c_str());
+            rmdir(old.c_str());
+         }
+         closedir(dh);
+      }
       d = "/var/tmp/h-c12-replay/" + std::to_string((long) getpid());
       mkdir(d.c_str(), 0777);
       atexit([]()
       {
+         for(const char* f : scratchFiles()) unlink((scratchDir() + "/" + f).c_str());
          rmdir(scratchDir().c_str());
          rmdir("/var/tmp/h-c12-replay");
       });
@@ -52,6 +75,16 @@ static std::string scratchDir()
    else d = opts().dir;
    return d;
 }
+struct QuietCerr   // MPSInput::entryIgnored / syntaxError print to std::cerr regardless of the verbosity
+{
+   std::streambuf* old;
+   QuietCerr() : old(std::cerr.rdbuf(nullptr)) {}
+   ~QuietCerr()
+   {
+      std::cerr.rdbuf(old);
+      std::cerr.clear();
+   }
+};
 static void dropFile(const std::string& p)
 {
    if(opts().mode == "replay") unlink(p.c_str());   // generate mode: fixed names, overwritten by the next case
@@ -151,6 +184,44 @@ static void applyRatScaling(LP& lp)
    }
 }
 
+// positive row / objective factors with 30 significant bits (real variants): same feasible set, optimum scaled with the
+// objective factor. They make the data need 17 significant digits in a file. Applied only where every product is
+// still exactly representable as a double (deterministic skip, no discard).
+static void applyBitRichScaling(LP& lp, Planted& pl)
+{
+   auto factor = []()
+   {
+      return Q(Q((1L << 29) + 2L * R(0, (1 << 28) - 1) + 1) / Q(1L << 29));
+   };
+   auto okd = [](const Q & q)
+   {
+      return !isFin(q) || isDyadicDouble(q);
+   };
+   int m = lp.m(), n = lp.n();
+   for(int i = 0; i < m; i++)
+   {
+      if(!P(60)) continue;
+      Q f = factor();
+      bool ok = okd(isFin(lp.lhs[i]) ? Q(lp.lhs[i] * f) : lp.lhs[i]) && okd(isFin(lp.rhs[i]) ? Q(lp.rhs[i] * f) : lp.rhs[i]);
+      for(int j = 0; j < n && ok; j++) ok = okd(Q(lp.A[i][j] * f));
+      if(!ok) continue;
+      if(isFin(lp.lhs[i])) lp.lhs[i] *= f;
+      if(isFin(lp.rhs[i])) lp.rhs[i] *= f;
+      for(int j = 0; j < n; j++) lp.A[i][j] *= f;
+   }
+   if(P(50))
+   {
+      Q g = factor();
+      bool ok = true;
+      for(int j = 0; j < n && ok; j++) ok = okd(Q(lp.obj[j] * g));
+      if(ok)
+      {
+         for(int j = 0; j < n; j++) lp.obj[j] *= g;
+         pl.z = g * (pl.z - lp.offset) + lp.offset;
+      }
+   }
+}
+
 static void genRt(Case& c)
 {
    int fmt = R(0, 1), arith = R(0, 1), wzo = R(0, 1), unscale = 0, scaler = 0;
@@ -167,6 +238,12 @@ static void genRt(Case& c)
    int cls = 1 + W({55, 15, 15, 15});
    LP& lp = c.lp;
    genPlantedLP(g, cls, lp, c.pl);
+   if(arith == 1)
+   {
+      // exact solves report the objective value without OBJ_OFFSET (observation, not C12's business): no offset here
+      c.pl.z -= lp.offset;
+      lp.offset = 0;
+   }
    bool noFreeRow = fmt == 1 && known("writeMPS-free-row");
    // ---- post-processing: free rows, empty rows, empty columns, zero objective (none changes status or optimum,
    //      except the zero objective whose effect on the planted class is computed below)
@@ -248,6 +325,7 @@ static void genRt(Case& c)
       }
    }
    if(arith == 1 && P(60)) applyRatScaling(lp);
+   if(arith == 0 && P(40)) applyBitRichScaling(lp, c.pl);
    c.pl.x.clear();
    c.pl.y.clear();
    c.pl.d.clear();
@@ -507,6 +585,7 @@ static Verdict runRt(const Case& c)
    bool rok = false;
    try
    {
+      QuietCerr qc;
       rok = B.readFile(fname.c_str(), &rn, &cn, &iv);
    }
    catch(const std::exception& x)
@@ -540,6 +619,7 @@ static Verdict runRt(const Case& c)
    {
       return Q(eps15 + q2pow(-52) * qabs(x));
    };
+   bool reallyScaled = false;
    auto same = [&](const Q & ex, const Q & got, const Q * tolOverride = nullptr) -> bool
    {
       if(isPInf(ex)) return isPInf(got);
@@ -549,8 +629,8 @@ static Verdict runRt(const Case& c)
       {
       case EXACT: return ex == got;
       case MPSTOL: return qabs(ex - got) <= (tolOverride ? *tolOverride : tolOf(ex));
-      case SCALED: return sgn(ex) == sgn(got) && isPow2Ratio(got, ex);
-      default: return sgn(ex) == sgn(got);
+      case SCALED: if(ex != got) reallyScaled = true; return sgn(ex) == sgn(got) && isPow2Ratio(got, ex);
+      default: if(ex != got) reallyScaled = true; return sgn(ex) == sgn(got);
       }
    };
    auto getQ = [&](double d) { return qd(d); };
@@ -649,7 +729,10 @@ static Verdict runRt(const Case& c)
          v.fail("scaled file: bound and cost of a column are scaled inconsistently");
          return v;
       }
-      if((iv.pos(idx) >= 0) != (nm.isInt[j] != 0))
+      // known finding: the MPS readers test "field1()[1] == 'I'" for the integer bound types LI/UI, which also matches MI
+      bool miRecord = fmt == 1 && isNInf(lp.lo[j]) && !isPInf(lp.up[j]);
+      if(miRecord && known("mps-MI-bound-integer")) e.count("excluded_known.mps-MI-bound-integer");
+      else if((iv.pos(idx) >= 0) != (nm.isInt[j] != 0))
       {
          v.fail("integer marker differs after reading (" + tag + ")");
          return v;
@@ -745,6 +828,7 @@ static Verdict runRt(const Case& c)
       }
    }
 
+   if(reallyScaled) e.count("rt.scaled_file_differs_from_original");
    // ---- solve both
    bool exact = arith == 1;
    if(!haveOrig)
@@ -769,8 +853,6 @@ static Verdict runRt(const Case& c)
    }
    e.count(std::string("rt.status.orig.") + statusName(origRes.st));
    e.count(std::string("rt.status.reread.") + statusName(rr.st));
-   // optimum of the reread LP in the original LP's terms (MPS of a maximisation: min -c x + off)
-   Q zr = flipped ? Q(2 * lp.offset - rr.obj) : rr.obj;
    int planted = c.pl.cls;
    auto closeEnough = [&](const Q & a, const Q & b)
    {
@@ -778,27 +860,59 @@ static Verdict runRt(const Case& c)
       Q sc = std::max(Q(1), std::max(qabs(a), qabs(b)));
       return qabs(a - b) <= sc / 1000000;
    };
-   bool agree = classCompatible(origRes.sc, rr.sc) && origRes.sc != 0 && rr.sc != 0
-                && (origRes.sc != 1 || rr.sc != 1 || closeEnough(origRes.obj, zr));
-   bool rereadOk = classMatchesPlanted(rr.sc, planted) && (rr.sc != 1 || planted != CL_OPT || closeEnough(c.pl.z, zr));
-   bool origOk = classMatchesPlanted(origRes.sc, planted) && (origRes.sc != 1 || planted != CL_OPT || closeEnough(c.pl.z, origRes.obj));
-   if(origRes.sc == 0 || rr.sc == 0) e.count("rt.solve.unjudged_status");
-   else if(!agree)
+   // 0 agree, 1 unjudged status, 2 differ, 3 exact solve contradicts planted, 4 original solve wrong, 5 both off planted
+   auto judge = [&](const SolveRes & o, const SolveRes & r) -> int
    {
-      if(rereadOk && !origOk) e.count("rt.solve.original_disagrees_with_planted(not C12)");
-      else
+      // optimum of the reread LP in the original LP's terms (MPS of a maximisation: min -c x + off)
+      Q zr = flipped ? Q(2 * lp.offset - r.obj) : r.obj;
+      if(o.sc == 0 || r.sc == 0) return 1;
+      bool agree = classCompatible(o.sc, r.sc) && (o.sc != 1 || r.sc != 1 || closeEnough(o.obj, zr));
+      bool rereadOk = classMatchesPlanted(r.sc, planted) && (r.sc != 1 || planted != CL_OPT || closeEnough(c.pl.z, zr));
+      bool origOk = classMatchesPlanted(o.sc, planted) && (o.sc != 1 || planted != CL_OPT || closeEnough(c.pl.z, o.obj));
+      if(!agree) return (rereadOk && !origOk) ? 4 : 2;
+      if(!rereadOk) return exact ? 3 : 5;
+      return 0;
+   };
+   int jd = judge(origRes, rr);
+   if(!exact && (jd == 2 || jd == 5))
+   {
+      // floating-point solves: before blaming the files, repeat both solves without the simplifier in fresh objects;
+      // a disagreement that disappears is the solver's (C01/C02), not the writers' / readers'
+      SoPlex S2, B2;
+      quiet(S2);
+      quiet(B2);
+      S2.setIntParam(SoPlex::SIMPLIFIER, SoPlex::SIMPLIFIER_OFF);
+      B2.setIntParam(SoPlex::SIMPLIFIER, SoPlex::SIMPLIFIER_OFF);
+      B2.setRealParam(SoPlex::OBJ_OFFSET, D(lp.offset));
+      loadReal(S2, lp, 0);
+      bool ok2 = false;
       {
-         v.fail("solving the reread LP gives a different status class or optimum than the original (" + tag + ")");
-         return v;
+         QuietCerr qc;
+         ok2 = B2.readFile(fname.c_str(), nullptr, nullptr, nullptr);
+      }
+      if(ok2)
+      {
+         SolveRes o2 = solveIt(S2, false), r2 = solveIt(B2, false);
+         if(!o2.threw && !r2.threw && judge(o2, r2) == 0)
+         {
+            e.count("rt.solve.solver_disagreement_gone_without_simplifier(not C12)");
+            jd = 0;
+         }
       }
    }
-   else if(exact && !rereadOk)
+   switch(jd)
    {
+   case 0: e.count("rt.solve.agree"); break;
+   case 1: e.count("rt.solve.unjudged_status"); break;
+   case 2:
+      v.fail("solving the reread LP gives a different status class or optimum than the original (" + tag + ")");
+      return v;
+   case 3:
       v.fail("exact solve of the reread LP contradicts the planted optimum (" + tag + ")");
       return v;
+   case 4: e.count("rt.solve.original_disagrees_with_planted(not C12)"); break;
+   default: e.count("rt.solve.both_disagree_with_planted(not C12)");
    }
-   else if(!rereadOk) e.count("rt.solve.both_disagree_with_planted(not C12)");
-   else e.count("rt.solve.agree");
    dropFile(fname);
    v.nontrivial = n >= 2 && (nRanged > 0 || nNonDefBound > 0);
    return v;
@@ -934,7 +1048,7 @@ static void genLit(Case& c)
       c.recs.push_back(Rec("litall").add(k * T / chunks).add((k + 1) * T / chunks));
       return;
    }
-   int K = R(8, 24);
+   int K = R(1, 24);
    auto digits = [](int len, bool any)
    {
       std::string s;
@@ -1076,6 +1190,7 @@ static bool readBatch(const std::vector<const Lit*>& ls, bool mps, bool rational
    bool ok = false;
    try
    {
+      QuietCerr qc;
       ok = B.readFile(fname.c_str(), &rn, &cn, nullptr);
    }
    catch(...)
@@ -1137,6 +1252,13 @@ static void checkLiterals(const std::vector<std::string>& strs, Verdict& v, bool
          e.count("excluded_known.ratFromString-exponent");
          continue;
       }
+      // known finding: ratFromString throws on "-0.0" (sign, decimal point, all digits zero); the LP-format rational
+      // reader swallows the exception and keeps the value 1
+      if(L.val == 0 && L.s[0] == '-' && L.s.find('.') != std::string::npos && known("ratFromString-negative-zero"))
+      {
+         e.count("excluded_known.ratFromString-negative-zero");
+         continue;
+      }
       bool plain = !L.hasExp && !L.frac;
       if(plain) plainSeen++;
       Q got;
@@ -1165,6 +1287,8 @@ static void checkLiterals(const std::vector<std::string>& strs, Verdict& v, bool
       if(rc == 1)
       {
          e.count("lit.rat.rejected");
+         if(e.cnt["lit.rat.rejected"] <= 20) e.count("lit.rat.rejected.sample:" + L.s);
+         ratOk.push_back(&L);     // the file readers must then reject it too (or read it exactly)
          continue;
       }
       if(plain) plainAccepted++;
@@ -1319,27 +1443,41 @@ static Verdict runLit(const Case& c)
 static void genDual(Case& c)
 {
    c.recs.push_back(Rec("mode").add("dual"));
-   c.recs.push_back(Rec("dual").add(R(0, 1)).add(R(0, 1)));
+   int dfmt = R(0, 1), dwzo = R(0, 1);
+   if(dfmt == 1 && known("writeDual-mps-segv"))
+   {
+      // known finding: writeDualFileReal to an .mps file dereferences the null tolerances of its local dual LP
+      ev().count("excluded_known.writeDual-mps-segv");
+      dfmt = 0;
+   }
+   c.recs.push_back(Rec("dual").add(dfmt).add(dwzo));
    GenOpt g;
    g.maxM = g.maxN = (int) opts().xi("maxdim", 8);
    g.minM = g.minN = P(85) ? 2 : 1;
    g.scaleExp = P(20) ? R(1, 4) : 0;
    genPlantedLP(g, CL_OPT, c.lp, c.pl);
    LP& lp = c.lp;
-   // a free primal row has no dual variable; buildDualProblem gives it the cost -/+infinity (1e100) as a number, which
-   // is outside what the LP formats can carry: free rows are replaced by slack one-sided rows (x* stays optimal)
+   // buildDualProblem gives the dual variable of a free primal row the cost -infinity (-1e100) as a number; the real MPS
+   // writer cannot print such a number (known finding writeMPS-huge-value): there the free rows are replaced by slack
+   // one-sided rows (x* stays optimal)
    for(int i = 0; i < lp.m(); i++)
-      if(isNInf(lp.lhs[i]) && isPInf(lp.rhs[i]))
+      if(isNInf(lp.lhs[i]) && isPInf(lp.rhs[i]) && dfmt == 1 && known("writeMPS-huge-value"))
       {
-         ev().count("dual.free_row_replaced");
+         ev().count("excluded_known.writeMPS-huge-value");
          lp.rhs[i] = lp.act(i, c.pl.x) + R(1, 9);
       }
    if(P(30))
    {
-      std::set<std::string> used;
-      for(int j = 0; j < lp.n(); j++) c.recs.push_back(Rec("cname").add(j).add(genName('v', used, false)));
-      used.clear();
-      for(int i = 0; i < lp.m(); i++) c.recs.push_back(Rec("rname").add(i).add(genName('r', used, true)));
+      // known finding: writeDualFileReal hands the primal row names to the dual's columns, but the dual has additional
+      // columns (one per finite non-zero bound, two per ranged row): NameSet::has(DataKey) reads out of bounds
+      if(known("writeDual-names-oob")) ev().count("excluded_known.writeDual-names-oob");
+      else
+      {
+         std::set<std::string> used;
+         for(int j = 0; j < lp.n(); j++) c.recs.push_back(Rec("cname").add(j).add(genName('v', used, false)));
+         used.clear();
+         for(int i = 0; i < lp.m(); i++) c.recs.push_back(Rec("rname").add(i).add(genName('r', used, true)));
+      }
    }
    c.pl.x.clear();
    c.pl.y.clear();
@@ -1357,6 +1495,22 @@ static Verdict runDual(const Case& c)
    int m = lp.m(), n = lp.n();
    e.count(std::string("dual.variant.") + (fmt ? "mps" : "lp") + ".wzo" + std::to_string(wzo));
    e.count(lp.sense == 1 ? "dual.primal_max" : "dual.primal_min");
+   {
+      bool fr = false, rg = false, bx = false, fx = false;
+      for(int i = 0; i < m; i++)
+      {
+         if(!isFin(lp.lhs[i]) && !isFin(lp.rhs[i])) fr = true;
+         if(isFin(lp.lhs[i]) && isFin(lp.rhs[i]) && lp.lhs[i] != lp.rhs[i]) rg = true;
+      }
+      for(int j = 0; j < n; j++)
+      {
+         if(isFin(lp.lo[j]) && isFin(lp.up[j])) (lp.lo[j] == lp.up[j] ? fx : bx) = true;
+      }
+      if(fr) e.count("dual.has.free_row");
+      if(rg) e.count("dual.has.ranged_row");
+      if(bx) e.count("dual.has.boxed_column");
+      if(fx) e.count("dual.has.fixed_column");
+   }
    SoPlex A;
    quiet(A);
    loadReal(A, lp, 0);
@@ -1389,6 +1543,7 @@ static Verdict runDual(const Case& c)
    bool ok = false;
    try
    {
+      QuietCerr qc;
       ok = B.readFile(fname.c_str(), &rn, &cn, nullptr);
    }
    catch(...)
@@ -1410,40 +1565,68 @@ static Verdict runDual(const Case& c)
       return v;
    }
    bool flipped = fmt == 1 && dualSense == 1;
-   SolveRes pr = solveIt(A, false), du = solveIt(B, false);
-   if(pr.threw || du.threw)
-   {
-      e.count("dual.solve.threw");
-      return v;
-   }
-   e.count(std::string("dual.status.primal.") + statusName(pr.st));
-   e.count(std::string("dual.status.dual.") + statusName(du.st));
-   if(du.sc == 0 || pr.sc == 0)
-   {
-      e.count("dual.solve.unjudged_status");
-      return v;
-   }
-   // the dual LP carries no objective offset
-   Q zd = (flipped ? Q(-du.obj) : du.obj) + lp.offset;
    auto closeEnough = [&](const Q & a, const Q & b)
    {
       Q sc = std::max(Q(1), std::max(qabs(a), qabs(b)));
       return qabs(a - b) <= sc / 1000000;
    };
-   bool primalOk = pr.sc == 1 && closeEnough(pr.obj, c.pl.z);
-   if(!primalOk)
+   std::string why;
+   // 0 agree, 1 unjudged / primal solve off the planted optimum, 2 violation (why)
+   auto judge = [&](const SolveRes & pr, const SolveRes & du) -> int
    {
-      e.count("dual.primal_solve_disagrees_with_planted(not C12)");
+      if(pr.threw || du.threw || du.sc == 0 || pr.sc == 0) return 1;
+      if(!(pr.sc == 1 && closeEnough(pr.obj, c.pl.z))) return 1;
+      if(du.sc != 1)
+      {
+         why = std::string("dual LP of an LP with finite optimum is not solved to optimality: ") + statusName(du.st);
+         return 2;
+      }
+      Q zd = (flipped ? Q(-du.obj) : du.obj) + lp.offset;   // the dual LP carries no objective offset
+      if(!closeEnough(zd, c.pl.z) || !closeEnough(zd, pr.obj))
+      {
+         why = "optimal value of the written dual LP differs from the primal optimum";
+         return 2;
+      }
+      return 0;
+   };
+   SolveRes pr = solveIt(A, false), du = solveIt(B, false);
+   if(!pr.threw) e.count(std::string("dual.status.primal.") + statusName(pr.st));
+   if(!du.threw) e.count(std::string("dual.status.dual.") + statusName(du.st));
+   int jd = judge(pr, du);
+   if(jd == 2)
+   {
+      // repeat without the simplifier in fresh objects: a disagreement that disappears is the solver's (C01/C02)
+      SoPlex S2, B2;
+      quiet(S2);
+      quiet(B2);
+      S2.setIntParam(SoPlex::SIMPLIFIER, SoPlex::SIMPLIFIER_OFF);
+      B2.setIntParam(SoPlex::SIMPLIFIER, SoPlex::SIMPLIFIER_OFF);
+      loadReal(S2, lp, 0);
+      bool ok2 = false;
+      {
+         QuietCerr qc;
+         ok2 = B2.readFile(fname.c_str(), nullptr, nullptr, nullptr);
+      }
+      if(ok2)
+      {
+         SolveRes p2 = solveIt(S2, false), d2 = solveIt(B2, false);
+         std::string keep = why;
+         if(judge(p2, d2) == 0)
+         {
+            e.count("dual.solver_disagreement_gone_without_simplifier(not C12)");
+            jd = 0;
+         }
+         why = keep;
+      }
+   }
+   if(jd == 1)
+   {
+      e.count("dual.unjudged(status or primal solve off planted)");
       return v;
    }
-   if(du.sc != 1)
+   if(jd == 2)
    {
-      v.fail(std::string("dual LP of an LP with finite optimum is not solved to optimality: ") + statusName(du.st));
-      return v;
-   }
-   if(!closeEnough(zd, c.pl.z) || !closeEnough(zd, pr.obj))
-   {
-      v.fail("optimal value of the written dual LP differs from the primal optimum");
+      v.fail(why);
       return v;
    }
    e.count("dual.values_agree");
